@@ -36,6 +36,12 @@ def hasSplitName : Bytes → Bool
 def rawTextNames : List Bytes :=
   [B "iframe", B "noembed", B "noframes", B "xmp", B "noscript", B "plaintext"]
 
+/-- a special element's start tag whose name is directly followed by white space and a template construct
+    (`<textarea {{else}}`, `<script {{end}}` …): the element name is chosen by a branch -/
+def hasCondSpecialTag (lt : Bytes) : Bool :=
+  [B "textarea", B "title", B "script", B "style"].any fun n =>
+    [32, 9, 10, 12, 13].any fun w => contains ([60] ++ n ++ [w, 123, 123]) lt
+
 def signatureOf (tmpl : Bytes) (plain outR : Result) : String :=
   let lt := lowerB tmpl
   let scriptCmt (r : Result) : Bool := r.tokens.any (fun t => match t with
@@ -46,6 +52,7 @@ def signatureOf (tmpl : Bytes) (plain outR : Result) : String :=
       | .startTag n _ _ => rawTextNames.contains n
       | _ => false) || rawTextNames.any (fun n => contains ([60] ++ n) lt) then "foreign-rawtext"
   else if hasSplitName tmpl then "split-name"
+  else if hasCondSpecialTag lt then "conditional-special-name"
   else ""
 
 def verdict (clause sig : String) : String := if sig == "" then "fail:" ++ clause else "fail:" ++ clause ++ ":" ++ sig
@@ -214,6 +221,7 @@ def c02 (tmpl out : Bytes) (data : List Bytes := []) : String :=
       else if clause == "javascript-url-in-srcset" && srcsetPrefix && !wholeJsDatum data (jsValues r.tokens) then "srcset-static-prefix"
       else if multiAction && !whole && (clause == "javascript-url" || clause == "javascript-url-in-srcset") then "split-scheme"
       else if clause == "untrusted-at-code-url-origin" && contains (B "rel=\"{{") lt then "rel-dynamic"
+      else if clause == "untrusted-in-script-or-style-body" && contains (B "{{range") lt then "range-reentry-sanitizer"
       else ""
     verdict clause sig
 
